@@ -108,7 +108,10 @@ def generate(seed, tier, index):
         cfg['step']['maxiter'] = min(cfg['step']['maxiter'], 12)
     else:
         # node-parallel sweepers (diagonal preconditioners), optionally x time-parallel
-        sc = physics.gen_config(r, allow_faults=False)
+        for _ in range(50):
+            sc = physics.gen_config(r, allow_faults=False)
+            if sc['config']['sweeper']['class'] in ('generic_implicit', 'imex_1st_order', 'explicit'):
+                break
         cfg = sc['config']
         sp = cfg['sweeper']['params']
         if cfg['sweeper']['class'] == 'explicit':
